@@ -171,7 +171,9 @@ func ruleHostPorts(c *Ctx, rule string) {
 				rec = append(rec, mu)
 			}
 		})
-		if len(open) != 1 || len(closes) == 0 || len(rec) != 1 {
+		if len(open) == 1 && len(closes) == 0 && len(rec) == 1 {
+			c.ob(rule, fn, "sockets opened by a failed call are closed", open[0], false, "OpenHostports (with its same-package helpers) closes no socket: the ports opened before the failure stay bound and unrecorded")
+		} else if len(open) != 1 || len(closes) == 0 || len(rec) != 1 {
 			c.undecided(rule, fn, "openLocalPort / Close / podPortMap update", nil, "expected calls not found")
 		} else {
 			ts := errTests(open[0])
